@@ -159,6 +159,7 @@ class Replayer:
     self.scopes: List[Any] = []
     self.hits: Dict[str, int] = {}
     self.divergences: List[dict] = []   # read divergences do not corrupt the state: the behaviour goes on
+    self.step = 0
     self.reads = 0
 
   def hit(self, k, n=1):
@@ -384,7 +385,7 @@ class Replayer:
     gclass = status if status != 'ok' else ('placeholder' if isinstance(val, pg.symbolic.ValueFromParentChain) else
                                             'default' if val is _SENTINEL else
                                             'node' if isinstance(val, pg.Symbolic) else 'value')
-    self.divergences.append({
+    self.divergences.append({'step': self.step, 
         'clause': 'read',
         'sig': self._read_sig(st, n, k, wclass, gclass),
         'detail': f'node {n} key {pykey(k)!r} via {form}: spec says {want}, code gives {status}: {_safe(val)}'})
@@ -413,7 +414,7 @@ class Replayer:
         except Exception as e:  # pylint: disable=broad-except
           inf = _exc_name(e)
         if inf is not (obs[k] != ERR):
-          self.divergences.append({'clause': 'read',
+          self.divergences.append({'step': self.step, 'clause': 'read',
                                    'sig': self._read_sig(st, n, k, 'ERR' if obs[k] == ERR else 'value', f'inferrable={inf}'),
                                    'detail': f'node {n} key {pykey(k)!r}: sym_inferrable gives {inf}, spec read is {obs[k]}'})
       if isinstance(o, pg.List) and present:
@@ -429,7 +430,7 @@ class Replayer:
           good = got[0] == 'ok' and len(got[1]) == len(want) and all(self._same(v, w) for v, w in zip(got[1], want))
         self.reads += 1
         if not good:
-          self.divergences.append({'clause': 'read',
+          self.divergences.append({'step': self.step, 'clause': 'read',
                                    'sig': {'clause': 'read', 'want': 'ERR' if ERR in want else 'value',
                                            'got': got[0] if got[0] != 'ok' else 'value', 'keykind': 'iteration',
                                            'coded_idxerr': any(st['coded'][n - 1][k] for k in present)},
@@ -460,7 +461,7 @@ class Replayer:
         if status == 'ok':
           self.hit('repr:ok')
           continue
-        self.divergences.append({
+        self.divergences.append({'step': self.step, 
             'clause': 'repr',
             'sig': {'clause': 'repr', 'got': status, 'cyclic': cyclic},
             'detail': f'node {n}: {fn.__name__}() gives {status}; TLC says resolved values '
@@ -515,12 +516,10 @@ class Replayer:
       st0 = beh[0].state
       self.build(st0)
       self.compare('Init', st0)
-      for d in self.divergences:
-        d['step'] = 0
       for step in range(1, len(beh)):
+        self.step = step
         st = beh[step].state
         act = st['act']
-        n_before = len(self.divergences)
         try:
           self.execute(act, st)
         except Divergence:
@@ -533,8 +532,6 @@ class Replayer:
           self.hit('attach')
         self._count_resolution_changes(beh[step - 1].state, st)
         self.compare(act[0], st, step)
-        for d in self.divergences[n_before:]:
-          d['step'] = step
       return None
     except Divergence as d:
       return {'step': step, 'clause': d.clause, 'sig': d.sig, 'detail': d.detail,
